@@ -177,7 +177,8 @@ class C12(core.Property):
                    "C12_refuted_shared", "C12_refuted_rename", "C12_refuted", "C12_nonvacuous",
                    "C12_reference_agrees", "gen_tables_agree",
                    "run_accepted", "history_accepted_only", "build_depends_on_accepted_only", "run_spec",
-                   "history_refines", "registered_options_stable", "C12_history", "C12_history_example"]
+                   "history_refines", "registered_options_stable", "C12_history", "C12_history_example",
+                   "session_independent", "session_workspace", "C12_session"]
     coq_targets = ["Props/C12.vo", "Extract/ExtractC12.vo"]
     rule = ("a configuration = (registered methods with option objects, commands, sync kind, notebook option, "
             "client switches); every registry method alone (with and without options, empty and maximal client), "
@@ -185,7 +186,9 @@ class C12(core.Property):
             "client switch that gates something in every state and at every depth of absence, position-encoding "
             "lists in every order incl. unknown and empty, shared option objects; registration HISTORIES (duplicates with "
             "other / no options, refused wrong-type attempt then a valid one, commands twice, random histories) and "
-            "a second server initialised after another one in the same process; non-trivial = >= 2 methods, or "
+            "a second server initialised after another one in the same process; SESSIONS (one server initialised 2-3 times: same / "
+            "other / no root, other encodings and client gates, registrations added in between, observed after each "
+            "initialize); non-trivial = >= 2 methods, or "
             "an option object, or a client gate switched")
     trusted_base = ["Coq 8.16.1 kernel incl. vm_compute (witnesses, Examples, the regenerated-table comparison)",
                     "Spec/CapsSpec.v provider_of / row: the LSP 3.17 table method -> provider slot, hand-copied",
@@ -442,6 +445,47 @@ class C12(core.Property):
             rng.shuffle(feats)
             cases.append(self._case(1, feats, objs, self._client(rng, "empty"), tag="shared"))
         cases += self._history_cases(chk, e)
+        cases += self._session_cases(chk, e)
+        return cases
+
+    def _session_cases(self, chk, e):
+        """(s) SESSIONS: one server receives initialize k = 2..3 times - same root / another root / no root, other
+        position encodings, other client gates, registrations added in between; after EACH initialize the wire
+        capabilities and the encoding the workspace really uses are observed."""
+        rng = chk.rng
+        cases = []
+        none = {"td": None, "ws": None, "nbdoc": False, "general": None}
+        enc_client = lambda encs: dict(none, general={"encs": encs})
+        lists = [["utf-8"], ["utf-16"], ["utf-32"], None, ["utf-7"], ["utf-32", "utf-8"]]
+        for a, b in itertools.permutations(lists, 2):
+            for root in ("same", "other", "none"):
+                cases.append(dict(self._hcase(1, [["f", "textDocument/hover", 0]], [], enc_client(a), tag="session"),
+                                  session=[{"client": enc_client(b), "root": root, "add": []}]))
+        gated = ["textDocument/willSave", "textDocument/willSaveWaitUntil", "textDocument/rename",
+                 "textDocument/prepareRename", "workspace/willCreateFiles", "workspace/didDeleteFiles"]
+        with_type = [m for m in e.registry if isinstance(e.opt_types.get(m), list) and m not in NEWER_THAN_317]
+        for _ in range(chk.n(150, 2500)):
+            objs = []
+            ms = rng.sample(gated, rng.randint(0, 4)) + rng.sample(e.registry, rng.randint(0, 4))
+            hist = [["f"] + self._feat(rng, e, m, objs, 0.5) for m in dict.fromkeys(ms) if m != "textDocument/rename"]
+            if "textDocument/rename" in ms:
+                hist.append(["f", "textDocument/rename", 0])
+            if rng.random() < 0.3:
+                hist.append(["c", "cmd0"])
+            steps = []
+            for _ in range(rng.randint(1, 2)):
+                add = []
+                for _ in range(rng.choice([0, 0, 1, 3])):
+                    r = rng.random()
+                    if r < 0.2:
+                        add.append(["c", "cmd%d" % rng.randint(0, 2)])
+                    else:
+                        m = rng.choice(with_type + e.registry)
+                        add.append(["f"] + self._feat(rng, e, m, objs, 0.5))
+                steps.append({"client": self._client(rng), "root": rng.choice(["same", "same", "other", "none"]),
+                              "add": add})
+            cases.append(dict(self._hcase(1, hist, objs, self._client(rng), sync=rng.choice([2, 2, 2, 1]),
+                                          nb=rng.choice([None, 1]), tag="session"), session=steps))
         return cases
 
     def _hcase(self, mode, hist, objs, client, sync=2, nb=None, tag="hist", before=None):
@@ -634,31 +678,47 @@ class C12(core.Property):
         def feed(msg):
             p.handle_message(json.loads(json.dumps(msg), object_hook=p.structure_message))
 
-        if c.get("tag") == "enc":       # the root_path spelling of the workspace root
-            params = t.InitializeParams(capabilities=client, process_id=4711, root_path="/c12")
-        else:
-            params = t.InitializeParams(capabilities=client, process_id=4711, root_uri="file:///c12")
-        feed({"jsonrpc": "2.0", "id": 1, "method": "initialize", "params": e.conv.unstructure(params)})
-        raw = b"".join(w.data)
-        head, body = raw.split(b"\r\n\r\n", 1)
-        resp = json.loads(body)
-        if "result" not in resp:
-            return ["error-response", resp.get("error", {}).get("code")]
-        caps = resp["result"]["capabilities"]
-        adv = caps.get("positionEncoding")
-        wsenc = srv.workspace.position_encoding
-        wsenc = getattr(wsenc, "value", wsenc)
-        probe = None
-        if c["sync"] == 2:
-            uri = "file:///c12/probe.txt"
-            feed({"jsonrpc": "2.0", "method": "textDocument/didOpen", "params": {
-                "textDocument": {"uri": uri, "languageId": "x", "version": 1, "text": PROBE_TEXT}}})
-            feed({"jsonrpc": "2.0", "method": "textDocument/didChange", "params": {
-                "textDocument": {"uri": uri, "version": 2},
-                "contentChanges": [{"range": {"start": {"line": 0, "character": 4},
-                                              "end": {"line": 0, "character": 4}}, "text": "#"}]}})
-            probe = self._classify(e, srv.workspace.get_text_document(uri).source)
-        return out({"caps": caps, "ws": [adv, wsenc, probe]})
+        def do_init(k, client, root):
+            """one initialize request (id k+1) and what can be seen after it: the capabilities on the wire, the
+            encoding attribute of the workspace, and the encoding a document opened NOW is edited with"""
+            roots = {"same": {"root_uri": "file:///c12"}, "other": {"root_uri": "file:///c12/other%d" % k},
+                     "none": {}, "path": {"root_path": "/c12"}}
+            params = t.InitializeParams(capabilities=client, process_id=4711, **roots[root])
+            del w.data[:]
+            feed({"jsonrpc": "2.0", "id": k + 1, "method": "initialize", "params": e.conv.unstructure(params)})
+            raw = b"".join(w.data)
+            head, body = raw.split(b"\r\n\r\n", 1)
+            resp = json.loads(body[:int(re.search(rb"Content-Length: (\d+)", head).group(1))])
+            if "result" not in resp:
+                return ["error-response", resp.get("error", {}).get("code")]
+            caps = resp["result"]["capabilities"]
+            adv = caps.get("positionEncoding")
+            wsenc = srv.workspace.position_encoding
+            wsenc = getattr(wsenc, "value", wsenc)
+            probe = None
+            if c["sync"] == 2:
+                uri = "file:///c12/probe%d.txt" % k
+                feed({"jsonrpc": "2.0", "method": "textDocument/didOpen", "params": {
+                    "textDocument": {"uri": uri, "languageId": "x", "version": 1, "text": PROBE_TEXT}}})
+                feed({"jsonrpc": "2.0", "method": "textDocument/didChange", "params": {
+                    "textDocument": {"uri": uri, "version": 2},
+                    "contentChanges": [{"range": {"start": {"line": 0, "character": 4},
+                                                  "end": {"line": 0, "character": 4}}, "text": "#"}]}})
+                probe = self._classify(e, srv.workspace.get_text_document(uri).source)
+            return {"caps": caps, "ws": [adv, wsenc, probe]}
+
+        first = do_init(0, client, "path" if c.get("tag") == "enc" else "same")
+        if "session" not in c:
+            return out(first) if isinstance(first, dict) else first
+        # the same server is initialised again (and again): after EACH initialize the observation is taken
+        steps = [out(first) if isinstance(first, dict) else first]
+        for k, st in enumerate(c["session"], 1):
+            hist = st.get("add", [])
+            res = []
+            register(srv)
+            o = do_init(k, e.client_caps(st["client"]), st.get("root", "same"))
+            steps.append(out(o) if isinstance(o, dict) else o)
+        return {"steps": steps}
 
     _probe_table = None
     def _classify(self, e, text):
@@ -702,8 +762,24 @@ class C12(core.Property):
         except Exception:
             return 4
 
+    @staticmethod
+    def _session_steps(c):
+        """a session as the flat cases the model is asked about: step k = the registry after every attempt made
+        up to the k-th initialize + that initialize's client capabilities (nothing else: the model of
+        lsp_initialize has no memory of earlier initializes)"""
+        base = {k: v for k, v in c.items() if k not in ("session", "before")}
+        steps, hist = [base], list(c["hist"])
+        for st in c["session"]:
+            hist = hist + [list(a) for a in st.get("add", [])]
+            d = dict(base); d["hist"] = hist; d["client"] = st["client"]; d["new"] = len(st.get("add", []))
+            steps.append(d)
+        return steps
+
     def model_input(self, c):
         e = env()
+        if "session" in c:
+            steps = self._session_steps(c)
+            return "seq %d " % len(steps) + " ".join(self.model_input(st) for st in steps)
         if "hist" in c:
             ids = self._cmd_ids(c)
             toks = ["hist", c["mode"], len(c["hist"])]
@@ -854,10 +930,26 @@ class C12(core.Property):
         return caps
 
     def model_output(self, c, toks):
-        e = env()
         if toks and toks[0] == "DRIVER-ERROR":
             raise RuntimeError("driver: " + " ".join(toks))
         it = iter([int(x) for x in toks])
+        if "session" not in c:
+            return self._model_one(c, it)
+        outs = []
+        for st in self._session_steps(c):
+            o = self._model_one(st, it)
+            if "new" in st:          # the implementation reports the outcomes of the attempts added for this step
+                for side in ("M", "S"):
+                    if o[side] is not None and "res" in o[side]:
+                        o[side]["res"] = o[side]["res"][len(o[side]["res"]) - st["new"]:]
+            outs.append(o)
+        S = None if any(o["S"] is None for o in outs) else {"steps": [o["S"] for o in outs]}
+        klass = next((o["klass"] for o in outs if o.get("klass") and not o["guard"]), None)
+        return {"M": {"steps": [o["M"] for o in outs]}, "S": S,
+                "guard": all(o["guard"] for o in outs), "klass": klass}
+
+    def _model_one(self, c, it):
+        e = env()
         mres = sres = None
         if "hist" in c:
             mres = [bool(next(it)) for _ in range(next(it))]
@@ -970,6 +1062,16 @@ class C12(core.Property):
         return len(c.get("hist") or c["feats"]) >= 2 or bool(c["objs"]) or switched
 
     def shrink(self, c):
+        if "session" in c:
+            for i in range(len(c["session"])):
+                d = json.loads(json.dumps(c)); del d["session"][i]
+                if not d["session"]:
+                    del d["session"]
+                yield d
+            for i, st in enumerate(c["session"]):
+                if st.get("add"):
+                    d = json.loads(json.dumps(c)); d["session"][i]["add"] = []
+                    yield d
         if "before" in c:
             d = json.loads(json.dumps(c)); del d["before"]
             yield d
@@ -1010,6 +1112,8 @@ class C12(core.Property):
             d[k] = d.get(k, 0) + 1
             k = "mode:%d" % c["mode"]
             d[k] = d.get(k, 0) + 1
+            if "session" in c:
+                d["initializes:%d" % (1 + len(c["session"]))] = d.get("initializes:%d" % (1 + len(c["session"])), 0) + 1
             n = len(c.get("hist") or c["feats"])
             k = "methods:" + ("0" if n == 0 else "1" if n == 1 else "2" if n == 2 else "3-9" if n < 10 else "10+")
             d[k] = d.get(k, 0) + 1
